@@ -243,11 +243,24 @@ SIGN_SWAP_CALLS = {'argmax': 'argmin', 'argmin': 'argmax', 'max': 'min', 'min': 
                    'nanmax': 'nanmin', 'nanmin': 'nanmax'}
 
 
+SCALARS = set()       # terms known to be scalars (numeric parameters per numpydoc): broadcast, never indexed
+
+
+def is_scalar(t):
+    return is_int(t) or t in SCALARS or isnum(t)
+
+
 def index(base, k):
     if base[0] == 'nd':
         base = base[1]
-    if base[0] == 'lin' and base[1] == 0:                 # (sum c_i x_i)[k] = sum c_i x_i[k]   (integer scalars are broadcast, not indexed)
-        return lin(0, [(t if is_int(t) else index(t, k), c) for t, c in base[2]])
+    if base[0] == 'lin' and (base[1] == 0 or _pointwise_key(k)):      # (sum c_i x_i)[k] = sum c_i x_i[k]   (scalars are broadcast, not indexed)
+        return lin(base[1] if _pointwise_key(k) else 0, [(t if is_scalar(t) else index(t, k), c) for t, c in base[2]])
+    if base[0] == 'cmp0' and _pointwise_key(k):           # element k of an element-wise comparison / conjunction
+        return cmp_(base[1], index(base[2], k), ('const', 0))
+    if base[0] in ('band', 'bor') and _pointwise_key(k):
+        return (band if base[0] == 'band' else bor)([index(x, k) for x in base[1]])
+    if base[0] == 'binv' and _pointwise_key(k):
+        return binv(index(base[1], k))
     if base[0] in ('tuple', 'list') and isconst(k) and isinstance(k[1], int) and not isinstance(k[1], bool):
         if -len(base[1]) <= k[1] < len(base[1]):
             return base[1][k[1]]
@@ -268,6 +281,11 @@ def index(base, k):
         if _neg_const(k) and (hi == NONE or _neg_const(hi)):
             return index(base[1], k if hi == NONE else add(k, hi))
     return ('idx', base, k)
+
+
+def _pointwise_key(k):
+    """a single position (loop variable or integer), as opposed to a mask / index array"""
+    return k[0] == 'lv' or (k[0] == 'const' and isinstance(k[1], int) and not isinstance(k[1], bool)) or (k[0] == 'lin' and _front_index(k))
 
 
 def _nonneg_const(t):
